@@ -375,10 +375,48 @@ DATE_FORMS = ['now', [2024, 2, 29, 13, 14, 15, 0], [2024, 2, 29, 13, 14, 15, 250
               [2024, 2, 29, 0, 0, 0, 0], [2024, 2, 29, 13, 14, 15, 0, 0], [2024, 2, 29, 13, 14, 15, 7, 330]]
 
 
+GROUP_MD = [
+    None,
+    {'observation': {'tree': ['newick', '((o1,o2),o3);']}},
+    {'sample': {'graph': ['json', '{"s1": ["s2"]}']}},
+    {'observation': {'tree': ['newick', '(a,b);'], 'other': ['text', 'x y']}, 'sample': {'tree': ['newick', '(x,y);']}},
+]
+OWN_DATES = [None, ['dt', [2015, 8, 24, 10, 15, 0, 0]], ['text', '2015-08-24T10:15:00'],
+             ['text', '24 Aug 2015, 10:15'], ['text', '']]
+
+
+def dress(t, c):
+    """group metadata (constructor arguments or add_group_metadata) and the table's own create_date"""
+    gm = c.get('grp_md')
+    if gm:
+        tup = {ax: {k: tuple(v) for k, v in d.items()} for ax, d in gm.items()}
+        if c.get('grp_how') == 'add':
+            for ax, d in tup.items():
+                t.add_group_metadata(d, axis=ax)
+        else:
+            ty = t.type
+            t = Table(t.matrix_data, t.ids(axis='observation'), t.ids(), t.metadata(axis='observation'), t.metadata(),
+                      type=ty, observation_group_metadata=tup.get('observation'),
+                      sample_group_metadata=tup.get('sample'))
+    od = c.get('own_date')
+    if od:
+        t.create_date = datetime.datetime(*od[1]) if od[0] == 'dt' else od[1]
+    return t
+
+
+def final_tz(c):
+    """the file under test was written with a tz-aware creation_date= (the second generation is written without)"""
+    return tz_aware(c) and c.get('generation', 1) == 1
+
+
 def base_doc(c):
-    """the document the library writes: the returned string, or the direct_io stream"""
-    t = tables.build(c['spec'])
+    """the document the library writes: the returned string, or the direct_io stream; second generation = the
+    document is loaded and written again"""
+    t = dress(tables.build(c['spec']), c)
     dt = case_date(c, [2020, 1, 2, 3, 4, 5, 6])
+    if c.get('generation', 1) == 2:
+        t = Table.from_json(json.loads(t.to_json(c.get('generated_by', 'gen'), creation_date=dt)))
+        dt = None
     if c.get('writer') == 'direct_io':
         import io
         buf = io.StringIO()
@@ -617,16 +655,26 @@ def load_in_child(path):
 
 
 def run_h5(c):
-    t = tables.build(c['spec'])
+    t = dress(tables.build(c['spec']), c)
     if c.get('via_json'):
         # as a table written by another tool comes in: through the JSON reader
         t = Table.from_json(json.loads(t.to_json('other tool')))
     path = os.path.join(tmpdir(), 'm.h5')
     if os.path.exists(path):
         os.unlink(path)
+    dt = case_date(c, 'now')
+    if c.get('generation', 1) == 2:
+        # second generation: a written file is loaded and written again
+        first = os.path.join(tmpdir(), 'first.h5')
+        if os.path.exists(first):
+            os.unlink(first)
+        with h5py.File(first, 'w') as h:
+            t.to_hdf5(h, c.get('generated_by', 'gen'), creation_date=dt)
+        t = load_table(first)
+        dt = None
     with h5py.File(path, 'w') as h:
         try:
-            t.to_hdf5(h, c.get('generated_by', 'gen'), creation_date=case_date(c, 'now'))
+            t.to_hdf5(h, c.get('generated_by', 'gen'), creation_date=dt)
         except Exception as e:  # noqa
             # the writer refuses the table: there is no file to validate (the HDF5 writer is not modelled here)
             return {'valid': ['writer-refused', exc_code(e)], 'report': [], 'cli': 'no file'}, (None, None), \
@@ -892,7 +940,7 @@ def oracle(c, obs):
         fails.append('unrecognised report line %s' % [r for r in obs['report'] if r[0] == 999][:1])
     if c['kind'] == 'json':
         doc = extra
-        if not c['muts'] and c.get('fv') in JSON_OK and not tz_aware(c):
+        if not c['muts'] and c.get('fv') in JSON_OK and not final_tz(c):
             if not valid:
                 fails.append('library-written JSON file (%s form, --format-version %r) of a vocabulary-type table is not '
                              'reported valid: %s %s' % (c.get('writer', 'returned string'), c.get('fv'), obs['valid'],
@@ -918,7 +966,7 @@ def oracle(c, obs):
         return fails[:3]
     tree, facts = extra
     fv = c.get('fv')
-    if not c['muts'] and fv in H5_21 and not valid and not tz_aware(c):
+    if not c['muts'] and fv in H5_21 and not valid and not final_tz(c):
         fails.append('library-written HDF5 file of a vocabulary-type table is not reported valid with '
                      '--format-version %r: %s %s' % (fv, obs['valid'], obs['report']))
     if valid:
@@ -987,6 +1035,20 @@ def gen(rng, tier):
             yield {'kind': 'json', 'spec': b, 'muts': [], 'date': dform}
             yield {'kind': 'json', 'spec': b, 'muts': [], 'writer': 'direct_io', 'date': dform}
             yield {'kind': 'h5', 'spec': b, 'muts': [], 'date': dform}
+        for gmd in GROUP_MD:
+            # group metadata on either / both axes, first and second generation files, the table's own create_date
+            for how in ('ctor', 'add'):
+                for generation in (1, 2):
+                    if gmd is None and how == 'add':
+                        continue
+                    yield {'kind': 'h5', 'spec': b, 'muts': [], 'grp_md': gmd, 'grp_how': how, 'generation': generation}
+        for od in OWN_DATES[1:]:
+            for generation in (1, 2):
+                yield {'kind': 'h5', 'spec': b, 'muts': [], 'own_date': od, 'generation': generation}
+                yield {'kind': 'json', 'spec': b, 'muts': [], 'own_date': od, 'generation': generation, 'date': 'now'}
+                yield {'kind': 'json', 'spec': b, 'muts': [], 'own_date': od, 'generation': generation, 'date': 'now',
+                       'writer': 'direct_io'}
+        yield {'kind': 'json', 'spec': b, 'muts': [], 'generation': 2}
         for fv in SPELLINGS[1:]:
             # every spelling of --format-version on library-written files of the three forms
             yield {'kind': 'json', 'spec': b, 'muts': [], 'fv': fv}
@@ -1014,7 +1076,10 @@ def gen(rng, tier):
                'date': rand_date(rng)}
         yield {'kind': 'json', 'spec': s, 'muts': [], 'writer': 'direct_io', 'generated_by': rng.choice(['gen', 'x y']),
                'date': rand_date(rng)}
-        yield {'kind': 'h5', 'spec': s, 'muts': [], 'date': rand_date(rng)}
+        yield {'kind': 'h5', 'spec': s, 'muts': [], 'date': rand_date(rng), 'grp_md': rng.choice(GROUP_MD),
+               'grp_how': rng.choice(['ctor', 'add']), 'generation': rng.choice([1, 2]), 'own_date': rng.choice(OWN_DATES)}
+        yield {'kind': 'json', 'spec': s, 'muts': [], 'date': rand_date(rng), 'generation': rng.choice([1, 2]),
+               'own_date': rng.choice(OWN_DATES), 'writer': rng.choice(['direct_io', 'string'])}
         yield {'kind': 'h5', 'spec': s, 'muts': [], 'fv': rng.choice(SPELLINGS)}
         yield {'kind': 'json', 'spec': s, 'muts': [], 'fv': rng.choice(SPELLINGS),
                'writer': rng.choice(['direct_io', 'string'])}
@@ -1062,6 +1127,13 @@ def classify(c):
     tags = [c['kind'] + (':mutations=%d' % len(c['muts'])), '%s:format-version=%r' % (c['kind'], c.get('fv'))]
     if c['kind'] == 'json':
         tags.append('json-writer:' + c.get('writer', 'string'))
+    if not c['muts']:
+        if c.get('grp_md'):
+            tags.append('h5-group-metadata:%s:%s' % ('+'.join(sorted(c['grp_md'])), c.get('grp_how', 'ctor')))
+        if c.get('generation', 1) == 2:
+            tags.append('%s-second-generation' % c['kind'])
+        if c.get('own_date'):
+            tags.append('%s-own-create_date:%s' % (c['kind'], c['own_date'][0] if c['own_date'][0] == 'dt' else repr(c['own_date'][1])))
     if not c['muts'] and 'date' in c:
         d = c['date']
         tags.append('%s-creation_date:%s' % (c['kind'], 'now()' if d == 'now' else 'tz-aware' if tz_aware(c) else
